@@ -1577,6 +1577,8 @@ class Interp:
                 self.accs[aid] = {'entries': [], 'fn': self.frame['fn'], 'name': let_name, 'line': e['line'], 'ts': True,
                                   'site': f"{self.c.relfile(self.c.fns[self.frame['callee']]['file'])}:{e['line']}", 'callee': self.frame['callee']}
                 return ('acc', aid)
+            if p in ('std::iter::once', 'core::iter::once', 'iter::once') and len(args) == 1:
+                return ('tuple', [args[0]])
             if last == 'new' and len(segs) >= 2 and segs[-2] == 'Ident':
                 return ('call', 'Ident::new', args[:1])
             if last in ('call_site',) and len(segs) >= 2 and segs[-2] == 'Span':
@@ -1928,9 +1930,28 @@ class Interp:
         return ('mcall', recv, m, [])
 
     def iter_method(self, m, recv, args_nodes, env, node):
+        if recv[0] == 'star' and recv[5] and m in ('map', 'filter', 'filter_map', 'inspect') and recv[3][0] not in ('tmpl', 'alt', 'opt', 'tuple', 'struct'):
+            # an adapter after `flat_map(..)` works on the elements of the inner sequences: push it into the inner iteration
+            _, src, eid, body, conds, _flat = recv
+            if body[0] not in ('star', 'reorder'):
+                ie = self.fresh('e')
+                s2, b2, c2 = self.as_pipeline(body, ie)
+                body = ('star', s2, ie, b2, c2, False)
+            self.frame['loops'].append((eid, src, conds))
+            try:
+                inner = self.iter_method(m, body, args_nodes, env, node)
+            finally:
+                self.frame['loops'].pop()
+            return ('star', src, eid, inner, conds, True)
         fn = self.expr(args_nodes[0], env)
-        if m == 'map' and recv[0] == 'tuple' and False:
-            pass
+        if m == 'flat_map' and recv[0] == 'tuple' and len(recv[1]) == 1:
+            # `std::iter::once(x).flat_map(f)` / `[x].iter().flat_map(f)` is f(x)
+            r = self.call_value(fn, [recv[1][0]])
+            if r[0] in ('star', 'reorder'):
+                return r
+            ie = self.fresh('e')
+            s2, b2, c2 = self.as_pipeline(r, ie)
+            return ('star', s2, ie, b2, c2, False)
         eid = self.fresh('e')
         src, body, conds = self.as_pipeline(recv, eid)
         flat = recv[5] if recv[0] == 'star' else False
